@@ -22,6 +22,8 @@
     [draw : nat -> nat] (tick-indexed; [draw = fun _ => 0] is the identity shuffle that the
     verif hook installs).  [for _, m := range s.members] reads the slice once, front to back
     (the loop bodies in this package never write to the array they range over).
+    Every sorted set has its own comparator: its kind is [Sorted c] and it compares with [cmps c]
+    (Clone, CloneEmpty and the results of Union/Intersection/Difference inherit the receiver's).
     No proofs in this file. *)
 From Coq Require Export List ZArith Bool Arith.
 Export ListNotations.
@@ -39,7 +41,8 @@ Notation "x <- r ;; k" := (rbind r (fun x => k))
 Notation "' p <- r ;; k" := (rbind r (fun p => k))
   (at level 61, p pattern, r at next level, right associativity).
 
-Inductive kind := Unordered | Stable | Sorted.
+(** the kind of a set; a sorted set carries (the index of) its own comparator *)
+Inductive kind := Unordered | Stable | Sorted (c : nat).
 
 Fixpoint set_nth {X} (l : list X) (i : nat) (x : X) : list X :=
   match l, i with
@@ -52,7 +55,7 @@ Fixpoint set_nth {X} (l : list X) (i : nat) (x : X) : list X :=
 Section ListAlgo.
   Variable A : Type.
   Variable eqb : A -> A -> bool.       (* generic.EqualFunc *)
-  Variable cmp : A -> A -> Z.          (* generic.CompareFunc *)
+  Variable cmps : nat -> A -> A -> Z.  (* the generic.CompareFunc of each sorted set, by index *)
   Variable draw : nat -> nat.          (* oracle behind the package-level *rand.Rand *)
 
   (** [find] of set.go / stable.go: linear scan, -1 when absent. *)
@@ -64,7 +67,7 @@ Section ListAlgo.
 
   (** the binary-search loop of sorted.go ([find] and [add]): [(true, mid)] when found,
       [(false, low)] (the insertion index) otherwise. *)
-  Fixpoint bsearch (fuel : nat) (l : list A) (v : A) (low high : Z) : res (bool * Z) :=
+  Fixpoint bsearch (cmp : A -> A -> Z) (fuel : nat) (l : list A) (v : A) (low high : Z) : res (bool * Z) :=
     match fuel with
     | O => Hang
     | S f =>
@@ -75,19 +78,19 @@ Section ListAlgo.
           | None => Panic IndexOutOfRange
           | Some m =>
               let c := cmp v m in
-              if (c <? 0)%Z then bsearch f l v low (mid - 1)%Z
-              else if (c >? 0)%Z then bsearch f l v (mid + 1)%Z high
+              if (c <? 0)%Z then bsearch cmp f l v low (mid - 1)%Z
+              else if (c >? 0)%Z then bsearch cmp f l v (mid + 1)%Z high
               else Ok (true, mid)
           end
         else Ok (false, low)
     end.
 
-  Definition bsearch_top (l : list A) (v : A) : res (bool * Z) :=
-    bsearch (S (length l)) l v 0%Z (Z.of_nat (length l) - 1)%Z.
+  Definition bsearch_top (cmp : A -> A -> Z) (l : list A) (v : A) : res (bool * Z) :=
+    bsearch cmp (S (length l)) l v 0%Z (Z.of_nat (length l) - 1)%Z.
 
   Definition find (k : kind) (l : list A) (v : A) : res Z :=
     match k with
-    | Sorted => '(found, i) <- bsearch_top l v ;; Ok (if found then i else (-1)%Z)
+    | Sorted c => '(found, i) <- bsearch_top (cmps c) l v ;; Ok (if found then i else (-1)%Z)
     | _ => Ok (lfind l v 0%Z)
     end.
 
@@ -102,7 +105,7 @@ Section ListAlgo.
       (the end for the unordered and the stable set, the binary-search index for the sorted). *)
   Definition add_plan (k : kind) (l : list A) (v : A) : res (option nat) :=
     match k with
-    | Sorted => '(found, low) <- bsearch_top l v ;;
+    | Sorted c => '(found, low) <- bsearch_top (cmps c) l v ;;
                 if found then Ok None
                 else if (low <? 0)%Z then Panic SliceBounds else Ok (Some (Z.to_nat low))
     | _ => c <- contains k l [v] ;; Ok (if c then None else Some (length l))
@@ -248,7 +251,7 @@ Arguments vm {A} v.
 Section Power.
   Variable T : Type.
   Variable eqb : T -> T -> bool.
-  Variable cmp : T -> T -> Z.
+  Variable cmp : nat -> T -> T -> Z.
   Variable draw : nat -> nat.
 
   (** [setEqFunc := func(a, b Set[T]) bool { return a.Equal(b) }].  [vequal] is total
@@ -257,9 +260,9 @@ Section Power.
   Definition set_eq (a b : vset T) : bool :=
     match vequal T eqb cmp a b with Ok r => r | _ => false end.
   Definition part_eq (a b : vset (vset T)) : bool :=
-    match vequal (vset T) set_eq (fun _ _ => 0%Z) a b with Ok r => r | _ => false end.
+    match vequal (vset T) set_eq (fun _ _ _ => 0%Z) a b with Ok r => r | _ => false end.
 
-  Definition nocmp {X} (a b : X) : Z := 0%Z.   (* New(equal) sets never compare *)
+  Definition nocmp {X} (c : nat) (a b : X) : Z := 0%Z.   (* New(equal) sets never compare *)
 
   Notation set0 := (vset T).
   Notation set1 := (vset (vset T)).
@@ -357,7 +360,7 @@ Section Heap.
   Variable zero : T.                     (* the zero value [make] fills arrays with *)
   Variable grow : nat -> nat -> nat.     (* growth policy of append: new capacity from old capacity and needed length *)
   Variable eqb : T -> T -> bool.
-  Variable cmp : T -> T -> Z.
+  Variable cmp : nat -> T -> T -> Z.
   Variable draw : nat -> nat.
 
   Definition store := list (list T).
@@ -440,7 +443,7 @@ Section Heap.
     | None => Ok h
     | Some pos =>
         match okind o with
-        | Sorted =>
+        | Sorted c =>
             (* append(s.members[:low], append([]T{val}, s.members[low:]...)...) *)
             let '(st1, lit) := sl_make (arrs h) 1 1 in
             st2 <- sl_write st1 lit 0 [v] ;;
@@ -450,7 +453,7 @@ Section Heap.
             pre <- sl_reslice (omem o) 0 pos ;;
             iv <- sl_read st3 inner ;;
             '(st4, m') <- sl_append st3 pre iv ;;
-            Ok (setmem h r Sorted st4 m')
+            Ok (setmem h r (Sorted c) st4 m')
         | k =>
             (* s.members = append(s.members, v) *)
             '(st', m') <- sl_append (arrs h) (omem o) [v] ;;
@@ -598,6 +601,9 @@ Definition cmpZrev (a b : Z) : Z := cmpZ b a.
 Definition cmpZmag (a b : Z) : Z := (a - b)%Z.
 Definition cmpZmag3 (a b : Z) : Z := (3 * (a - b))%Z.
 Definition cmpZrmag (a b : Z) : Z := (b - a)%Z.
+(** the comparators of the driver's sorted sets, by index *)
+Definition cmpsZ (c : nat) : Z -> Z -> Z :=
+  match c with 0 => cmpZ | 1 => cmpZrev | 2 => cmpZmag | 3 => cmpZmag3 | _ => cmpZrmag end.
 (** Go's growth for small slices (doubling); any policy with [grow c n >= n] satisfies the theorems *)
 Definition grow_double (c need : nat) : nat := Nat.max need (2 * c).
 Definition draw_id (t : nat) : nat := 0.
